@@ -84,9 +84,14 @@ def ie_history(rng, n, nkeys):
 
 
 def run(ctx):
+    import time
+    t0 = time.time()
+    def lap(what):
+        log("C02 %-38s %6.1fs" % (what, time.time() - t0))
     quick = ctx.tier == "quick"
     rng = random.Random(ctx.seed)
     model_check_btree(ctx, quick)
+    lap("BTreeI model checks")
     ctx.cov["rule"] = ("cases = (history, flavour, configuration) as for C01 (TLC transition cover, TLC fill / drain walks, seeded long histories; 4 flavours x 10 configurations with leaf "
                        "and inner capacities 4..16 chosen independently, int and tracked heap-owning elements); after every mutating call on every configuration the driver reads the "
                        "tree through the btree_friend seam and logs leaf depths, fill of every node, separator / max-below / min-right triples, both leaf-chain walks, stats vs. counted "
@@ -110,10 +115,12 @@ def run(ctx):
         for part in ([tr_a] if nt else []) + [tr_b]:
             if os.path.exists(part):
                 f.write(read_text(part))
+    lap("driver runs with shape facts")
     exe_a = build_driver(ctx, asan=True)
     sub = rng.sample(lines, max(1, len(lines) // (4 if quick else 1)))
     run_driver_sharded(ctx, exe_a, sub, "/dev/null", what="drv_btree(asan)", extra_args=["1", "0123", "0123456789"], header="P",
                        env={"ASAN_OPTIONS": "detect_leaks=1"})
+    lap("ASan monitor run")
     if not (os.path.exists(tr) and os.path.getsize(tr)):
         return
     txt = read_text(tr)
@@ -149,6 +156,7 @@ def run(ctx):
                     (where, e.get("alloc_live"), e.get("elems_live"), e.get("alloc_err"), e.get("ledger_err")))
         return ("btree/crash/%s" % fl, "%s: execution ended abnormally: %s" % (where, str(e)[:120]))
     validate_traces(ctx, SD, "Trace_BTreeShape", "Trace_BTreeShape.cfg", tr, classify, shards=NCPU, max_rejects=8, timeout=3000)
+    lap("Trace_BTreeShape validation")
     if not ctx.violations and (not depth or max(depth) < 2):
         raise InternalError("vacuity guard: no recorded tree reached three levels")
     # implementation level: the node structure after every insert / erase, compared with what BTreeI computes (set and multiset, ascending configurations)
@@ -179,6 +187,7 @@ def run(ctx):
             cur = (e.get("ls"), e.get("is"), e.get("multi"))
         if cur is not None:
             groups.setdefault(cur, []).append(ln)
+    lap("branch histories + I-level driver run")
     ctx.cov["ilevel_groups"] = len(groups)
     jobs = []
     for (ls, is_, multi), evs in sorted(groups.items(), key=str):
@@ -198,3 +207,4 @@ def run(ctx):
             f.result()
     ctx.assumptions += ["node storage is observed through the Allocator template argument (a counting allocator that poisons released blocks) and the TLX_BTREE_FRIENDS seam",
                         "element life-cycle: every slot of a live node holds exactly one live element instance (nodes construct all slots); AddressSanitizer build is the monitor for accesses to released storage"]
+    lap("Trace_BTreeI validation")
